@@ -1,5 +1,8 @@
 use std::panic;
+#[cfg(not(may_verif))]
 use std::sync::atomic::{AtomicBool, AtomicUsize, Ordering};
+#[cfg(may_verif)]
+use crate::verif::atomic::{AtomicBool, AtomicUsize, Ordering};
 use std::sync::Arc;
 use std::time::{Duration, Instant};
 
@@ -13,7 +16,10 @@ use crate::sync::Mutex;
 use crate::sync::{AtomicOption, Blocker};
 use crate::yield_now::yield_with;
 
+#[cfg(not(may_verif))]
 use may_queue::mpsc::Queue;
+#[cfg(may_verif)]
+use crate::verif::Queue;
 
 /// This enumeration is the list of the possible reasons that `poll`
 /// could not return Event when called.
